@@ -756,7 +756,7 @@ impl<'a> Checker<'a> {
                 for a in 0..n {
                     let x = q.cum_regret[a];
                     let want = if x > 0.0 { x * dpos } else if x < 0.0 { x * dneg } else { x };
-                    if !close(r.cum_regret[a], want, 1e-9 * x.abs()) {
+                    if !close(r.cum_regret[a], want, 1e-9 * x.abs() + f64::MIN_POSITIVE) {
                         return fail("advance:regret-discount", format!("iteration {}: regret {} of player {} infoset {} became {}, documented discount t^x/(t^x+1) gives {} (alpha {}, beta {})", t, x, p + 1, di, r.cum_regret[a], want, self.par.alpha, self.par.beta));
                     }
                 }
@@ -774,7 +774,7 @@ impl<'a> Checker<'a> {
                 }
                 for a in 0..n {
                     let want = q.cum_strat[a] * factor;
-                    if !close(r.cum_strat[a], want, 1e-9 * q.cum_strat[a].abs()) {
+                    if !close(r.cum_strat[a], want, 1e-9 * q.cum_strat[a].abs() + f64::MIN_POSITIVE) {
                         return fail("advance:average-discount", format!("iteration {}: cumulative strategy {} of player {} infoset {} became {}, weighting the n-th contribution by n^gamma (gamma {}, n = {}) gives {}", t, q.cum_strat[a], p + 1, di, r.cum_strat[a], g, m, want));
                     }
                 }
